@@ -138,7 +138,7 @@ int janet_verif_gc_point(void);
         if (!janet_checktype(op1, JANET_NUMBER)) {\
             vm_commit();\
             Janet _argv[2] = { op1, janet_wrap_number(CS) };\
-            stack[A] = janet_mcall(#op, 2, _argv);\
+            { Janet v_ = janet_mcall(#op, 2, _argv); vm_restore(); stack[A] = v_; }\
             vm_checkgc_pcnext();\
         } else {\
             double x1 = janet_unwrap_number(op1);\
@@ -152,7 +152,7 @@ int janet_verif_gc_point(void);
         if (!janet_checktype(op1, JANET_NUMBER)) {\
             vm_commit();\
             Janet _argv[2] = { op1, janet_wrap_number(CS) };\
-            stack[A] = janet_mcall(#op, 2, _argv);\
+            { Janet v_ = janet_mcall(#op, 2, _argv); vm_restore(); stack[A] = v_; }\
             vm_checkgc_pcnext();\
         } else {\
             double y1 = janet_unwrap_number(op1);\
@@ -175,7 +175,7 @@ int janet_verif_gc_point(void);
             vm_pcnext();\
         } else {\
             vm_commit();\
-            stack[A] = janet_binop_call(#op, "r" #op, op1, op2);\
+            { Janet v_ = janet_binop_call(#op, "r" #op, op1, op2); vm_restore(); stack[A] = v_; }\
             vm_checkgc_pcnext();\
         }\
     }
@@ -195,7 +195,7 @@ int janet_verif_gc_point(void);
             vm_pcnext();\
         } else {\
             vm_commit();\
-            stack[A] = janet_binop_call(#op, "r" #op, op1, op2);\
+            { Janet v_ = janet_binop_call(#op, "r" #op, op1, op2); vm_restore(); stack[A] = v_; }\
             vm_checkgc_pcnext();\
         }\
     }
@@ -719,7 +719,7 @@ static JanetSignal run_vm(JanetFiber *fiber, Janet in) {
             vm_pcnext();
         } else {
             vm_commit();
-            stack[A] = janet_binop_call("div", "rdiv", op1, op2);
+            { Janet v_ = janet_binop_call("div", "rdiv", op1, op2); vm_restore(); stack[A] = v_; }
             vm_checkgc_pcnext();
         }
     }
@@ -739,7 +739,7 @@ static JanetSignal run_vm(JanetFiber *fiber, Janet in) {
             vm_pcnext();
         } else {
             vm_commit();
-            stack[A] = janet_binop_call("mod", "rmod", op1, op2);
+            { Janet v_ = janet_binop_call("mod", "rmod", op1, op2); vm_restore(); stack[A] = v_; }
             vm_checkgc_pcnext();
         }
     }
@@ -754,7 +754,7 @@ static JanetSignal run_vm(JanetFiber *fiber, Janet in) {
             vm_pcnext();
         } else {
             vm_commit();
-            stack[A] = janet_binop_call("%", "r%", op1, op2);
+            { Janet v_ = janet_binop_call("%", "r%", op1, op2); vm_restore(); stack[A] = v_; }
             vm_checkgc_pcnext();
         }
     }
@@ -775,7 +775,7 @@ static JanetSignal run_vm(JanetFiber *fiber, Janet in) {
             vm_pcnext();
         } else {
             vm_commit();
-            stack[A] = janet_unary_call("~", op);
+            { Janet v_ = janet_unary_call("~", op); vm_restore(); stack[A] = v_; }
             vm_checkgc_pcnext();
         }
     }
@@ -1193,7 +1193,11 @@ static JanetSignal run_vm(JanetFiber *fiber, Janet in) {
 
     VM_OP(JOP_LENGTH)
     vm_commit();
-    stack[A] = janet_lengthv(stack[E]);
+    {
+        Janet temp = janet_lengthv(stack[E]);
+        vm_restore();
+        stack[A] = temp;
+    }
     vm_pcnext();
 
     VM_OP(JOP_MAKE_ARRAY) {
